@@ -263,8 +263,19 @@ class Interp:
     def op_backport(self, op) -> None:
         self.mesh.backport()
 
+    def op_restore_vertices(self, op) -> None:
+        """puts every vertex moved by move_vertex back to exactly where it was"""
+        for index, pos in getattr(self, "_saved_vertices", {}).items():
+            self.mesh.vertices[index].move_to(pos)
+        self._saved_vertices = {}
+
     def op_move_vertex(self, op) -> None:
         v = self.mesh.vertices[op["index"]]
+        saved = getattr(self, "_saved_vertices", None)
+        if saved is None:
+            saved = self._saved_vertices = {}
+        if op["index"] not in saved:
+            saved[op["index"]] = [float(x) for x in v.position]
         if "to" in op:
             v.move_to(op["to"])
         else:
